@@ -38,10 +38,14 @@ type cwrite struct {
 	Level   int // 0 any, 1 one, 2 quorum, 3 all
 	NPoints int
 	Series  int
+	// Conflict: the points carry field v as a string; every owner holds v as
+	// a float (seeded before the first step), so every owner rejects them for
+	// good ("field type conflict"): nothing is stored, nothing is retried
+	Conflict bool
 }
 
 type cfault struct {
-	Kind string // none, down, refuse, stall, reset, slow, storefail
+	Kind string // none, down, refuse, stall, reset, slow, late, storefail
 	K    int64
 }
 
@@ -73,15 +77,16 @@ func genClusterPlan(t *rapid.T) *clusterPlan {
 		switch k := rapid.IntRange(0, 9).Draw(t, l+".kind"); {
 		case k < 6:
 			p.Steps = append(p.Steps, cstep{Write: &cwrite{
-				Level:   rapid.IntRange(0, 3).Draw(t, l+".level"),
-				NPoints: rapid.IntRange(1, 4).Draw(t, l+".np"),
-				Series:  rapid.IntRange(0, 5).Draw(t, l+".series"),
+				Level:    rapid.IntRange(0, 3).Draw(t, l+".level"),
+				NPoints:  rapid.IntRange(1, 4).Draw(t, l+".np"),
+				Series:   rapid.IntRange(0, 5).Draw(t, l+".series"),
+				Conflict: rapid.IntRange(0, 5).Draw(t, l+".conflict") == 0,
 			}})
 		case k < 9:
 			var fs []cfault
 			for j := 0; j < p.Nodes; j++ {
 				fs = append(fs, cfault{
-					Kind: rapid.SampledFrom([]string{"none", "none", "none", "down", "refuse", "stall", "reset", "slow", "storefail"}).Draw(t, fmt.Sprintf("%s.f%d", l, j)),
+					Kind: rapid.SampledFrom([]string{"none", "none", "none", "down", "refuse", "stall", "reset", "slow", "late", "storefail"}).Draw(t, fmt.Sprintf("%s.f%d", l, j)),
 					K:    int64(rapid.IntRange(0, 60).Draw(t, fmt.Sprintf("%s.k%d", l, j))),
 				})
 			}
@@ -166,6 +171,12 @@ func execCluster(run *core.Run, p *clusterPlan) {
 	for i := range faults {
 		faults[i].Kind = "none"
 	}
+	// the inter-node protocol is strict request/response without request
+	// ids: a reply that was sent before the current request arrived can only
+	// be the late answer to an earlier, abandoned request
+	c.Net.OnStaleReply = func(desc string) {
+		run.Fail("stale-reply-taken-for-answer", "", "%s", desc)
+	}
 	c.Net.OnFault = func(kind string) { run.Fault("net-" + kind) }
 	c.Net.PolicyFor = func(addr string, n int) simnet.Policy {
 		fmu.Lock()
@@ -185,6 +196,11 @@ func execCluster(run *core.Run, p *clusterPlan) {
 			case "slow":
 				pol.Latency = time.Duration(20+faults[i].K) * time.Millisecond
 				pol.Fragment = int(1 + faults[i].K%5)
+			case "late":
+				// answers, but only after the writer has given up: request
+				// and response each take more than half the write timeout.
+				// The connection stays open and the late answer does arrive.
+				pol.Latency = time.Duration(coordinator.DefaultWriteTimeout)/2 + time.Duration(1+faults[i].K%3)*time.Second
 			}
 		}
 		return pol
@@ -224,16 +240,26 @@ func execCluster(run *core.Run, p *clusterPlan) {
 		return out, nil
 	}
 	type wrec struct {
-		shard  uint64
-		owners []uint64
-		series int
-		ts     []int64
-		acked  bool
+		shard    uint64
+		owners   []uint64
+		series   int
+		ts       []int64
+		acked    bool
+		conflict bool
 	}
 	var writes []wrec
 	written := map[int]map[int64]float64{} // series -> t -> value
 	var tn int64
-	for si, st := range p.Steps {
+	// every series is written once at level all before the first fault: its
+	// shard then holds field v as a float on every owner
+	steps := make([]cstep, 0, len(p.Steps)+6)
+	for sr := 0; sr < 6; sr++ {
+		steps = append(steps, cstep{Write: &cwrite{Level: 3, NPoints: 1, Series: sr}})
+	}
+	nseed := len(steps)
+	steps = append(steps, p.Steps...)
+	for si, st := range steps {
+		si -= nseed // the seeding writes are steps -6..-1
 		if run.Failed() {
 			return
 		}
@@ -244,6 +270,7 @@ func execCluster(run *core.Run, p *clusterPlan) {
 			time.Sleep(time.Duration(st.Sleep) * time.Second)
 		case st.Faults != nil:
 			run.Op("faults")
+			var changed []string
 			fmu.Lock()
 			for i, f := range st.Faults {
 				if i+1 == p.Coord {
@@ -253,10 +280,29 @@ func execCluster(run *core.Run, p *clusterPlan) {
 					// a node that was down cannot come back in this harness (its service is closed): it stays unreachable
 					f.Kind = "refuse"
 				}
+				if faults[i] != f {
+					changed = append(changed, clustersim.Addr(uint64(i+1)))
+				}
 				faults[i] = f
 			}
 			cur := append([]cfault(nil), faults...)
 			fmu.Unlock()
+			// the policy of a connection is fixed when it is dialled: a fault
+			// that begins (or ends) takes the pooled connections to that node
+			// with it, as the network event behind it would
+			if len(changed) > 0 {
+				k := c.Net.ResetWhere(func(remote string) bool {
+					for _, a := range changed {
+						if remote == a {
+							return true
+						}
+					}
+					return false
+				})
+				if k > 0 {
+					run.Probe("pooled-connections-reset-at-fault-change")
+				}
+			}
 			for i, f := range cur {
 				if f.Kind == "down" {
 					c.Node(uint64(i + 1)).Down()
@@ -274,6 +320,11 @@ func execCluster(run *core.Run, p *clusterPlan) {
 			for j := 0; j < w.NPoints; j++ {
 				tn++
 				t := ct0.Add(time.Duration(tn) * time.Second)
+				if w.Conflict {
+					pts = append(pts, models.MustNewPoint("w", models.NewTags(map[string]string{"s": fmt.Sprint(w.Series)}), models.Fields{"v": fmt.Sprint("x", tn)}, t))
+					ts = append(ts, t.UnixNano())
+					continue
+				}
 				pts = append(pts, models.MustNewPoint("w", models.NewTags(map[string]string{"s": fmt.Sprint(w.Series)}), models.Fields{"v": float64(tn)}, t))
 				ts = append(ts, t.UnixNano())
 				written[w.Series][t.UnixNano()] = float64(tn)
@@ -299,8 +350,15 @@ func execCluster(run *core.Run, p *clusterPlan) {
 				run.Fail("write-never-returns", "", "step%d: a write at level %v did not return within 5 simulated minutes (the write timeout is %v)", si, level, coord.PW.WriteTimeout)
 				return
 			}
-			run.Logf("step%d write %d points series %d level %v owners %v -> %v", si, w.NPoints, w.Series, level, owners, werr)
-			wr := wrec{shard: sh.ID, owners: owners, series: w.Series, ts: ts, acked: werr == nil}
+			run.Logf("step%d write %d points series %d level %v owners %v conflict=%v -> %v", si, w.NPoints, w.Series, level, owners, w.Conflict, werr)
+			if si < 0 && werr != nil {
+				run.Fail("harness-error", "", "seeding write %d failed: %v", si, werr)
+				return
+			}
+			if w.Conflict {
+				run.Probe("write-with-field-type-conflict")
+			}
+			wr := wrec{shard: sh.ID, owners: owners, series: w.Series, ts: ts, acked: werr == nil, conflict: w.Conflict}
 			writes = append(writes, wr)
 			if werr != nil {
 				run.Probe("write-refused")
@@ -385,6 +443,9 @@ func execCluster(run *core.Run, p *clusterPlan) {
 	}
 	sort.Slice(owners, func(i, j int) bool { return owners[i] < owners[j] })
 	for _, wr := range writes {
+		if wr.conflict {
+			continue // every owner rejects these for good: hinted handoff drops them
+		}
 		for _, o := range wr.owners {
 			if !reachable[o] {
 				continue
